@@ -229,3 +229,35 @@ func jsonStr(v interface{}) string {
 }
 
 func iptr(v int) *int { return &v }
+
+// setupDesktop puts the process into one of the desktop-session situations fan2go's error notifications meet
+// (ui.NotifySend: DISPLAY, `who`, `id -u`, `sudo -u <user> ... notify-send`), chosen by the batch number. The fake
+// commands live in the scratch directory and come first in PATH.
+func setupDesktop(ctx *Ctx) string {
+	variant := []string{"no-DISPLAY", "nobody-on-the-display", "user-on-the-display", "user-on-the-display-notify-send-fails", "who-fails", "who-prints-nothing"}[ctx.Batch%6]
+	bin := ctx.Path("fakebin")
+	_ = os.MkdirAll(bin, 0755)
+	script := func(name, body string) { _ = os.WriteFile(filepath.Join(bin, name), []byte("#!/bin/sh\n"+body+"\n"), 0755) }
+	switch variant {
+	case "no-DISPLAY":
+		_ = os.Unsetenv("DISPLAY")
+		return variant
+	case "nobody-on-the-display":
+		script("who", "echo 'alice    pts/0        2026-10-03 10:05 (192.168.1.7)'")
+	case "user-on-the-display", "user-on-the-display-notify-send-fails":
+		script("who", "echo 'alice    pts/0        2026-10-03 10:05 (192.168.1.7)'; echo 'bob      :0           2026-10-03 09:00 (:0)'")
+		script("id", "echo 1000")
+		if variant == "user-on-the-display" {
+			script("sudo", "exit 0")
+		} else {
+			script("sudo", "echo 'cannot connect to the session bus' >&2; exit 1")
+		}
+	case "who-fails":
+		script("who", "exit 1")
+	case "who-prints-nothing":
+		script("who", "true")
+	}
+	_ = os.Setenv("DISPLAY", ":0")
+	_ = os.Setenv("PATH", bin+":"+os.Getenv("PATH"))
+	return variant
+}
